@@ -1128,7 +1128,7 @@ class Gen:
                 continue
             if not all(stmt_ok(s) for s in body):
                 continue
-            body, _ = mark_dead(body)
+            body = drop_dead(body)
             used = assigned_names(body)
             locals_ = [(n_, t) for n_, t in list(decl.items()) + [("k0", "I"), ("k1", "I"), ("k2", "I")] if n_ in used]
             m = Method(name, ret, params, locals_, body, pool=pool, subject=subject, separate_banks=r.random() < 0.25)
@@ -1330,20 +1330,22 @@ def pool_subject(m):
 # =====================================================================================================
 # neutralisation (explain-away re-run): replace every construct whose feature is known-bad by a benign equivalent
 # =====================================================================================================
-def neutralise(m, bad):
-    """-> (new compiled Method, set of features replaced). `bad`: set of feature strings."""
+def neutralise(m, bad, avoid=()):
+    """-> (new compiled Method, set of features replaced). `bad`: features to replace; `avoid`: features a replacement must not introduce."""
     done = set()
+    target = set(bad)
+    bad = set(bad) | set(avoid)
 
     def ex(e):
         k = e[0]
         if k == "var":
-            if len(e) > 2 and "move:" + e[2] in bad:
+            if len(e) > 2 and "move:" + e[2] in target:
                 done.add("move:" + e[2])
                 return ("var", e[1])
             return e
         if k == "const":
             f = "const:" + e[3]
-            if f in bad:
+            if f in target:
                 T = e[1]
                 alt = mkconst(T, 1)
                 if "const:" + alt[3] not in bad:
@@ -1353,7 +1355,7 @@ def neutralise(m, bad):
         if k == "un":
             a = ex(e[2])
             f = "un:" + e[1]
-            if f in bad and UNARY[e[1]][0] == UNARY[e[1]][1]:
+            if f in target and UNARY[e[1]][0] == UNARY[e[1]][1]:
                 done.add(f)
                 return a
             return ("un", e[1], a)
@@ -1364,7 +1366,7 @@ def neutralise(m, bad):
             b = ex(b)
         node = ("bin", op, T, a, b, form)
         fs = ["op:" + bin_insn(op, T, form)] + bin_shape_features(node)
-        hit = [f for f in fs if f in bad]
+        hit = [f for f in fs if f in target]
         if hit:
             tb = "I" if op in ("shl", "shr", "ushr") else T
             bb = mkconst(tb, b) if lit else b
@@ -1390,7 +1392,7 @@ def neutralise(m, bad):
         for s in b:
             k = s[0]
             if k == "dead":
-                fs = [f for f in dead_features(s[2]) if f in bad]
+                fs = [f for f in dead_features(s[2]) if f in target]
                 if fs:
                     done.update(fs)
                     continue
@@ -1409,9 +1411,9 @@ def neutralise(m, bad):
                 out.append(("switch", ex(s[1]), [(ks, bl(b2), ft) for ks, b2, ft in s[2]], None if s[3] is None else bl(s[3]), s[4]))
         return out
 
-    body = bl(m.body)
+    body = drop_dead(bl(m.body))
     sep = m.separate_banks
-    if "reuse:int-long" in bad and "reuse:int-long" in m.features:
+    if "reuse:int-long" in target and "reuse:int-long" in m.features:
         sep = True
         done.add("reuse:int-long")
     used = assigned_names(body)
@@ -1518,6 +1520,51 @@ def mark_dead(stmts, live_out=frozenset()):
     return out, live
 
 
+def drop_dead(body):
+    """what dx's dead-code remover does: an assignment nobody reads disappears unless it can throw (div/rem). -> body with liveness marks"""
+    def strip(stmts):
+        o = []
+        ch = False
+        for s in stmts:
+            k = s[0]
+            if k == "dead" and not throwing_insns(s[2]):
+                ch = True
+                continue
+            if k == "if":
+                a, c1 = strip(s[2])
+                b, c2 = strip(s[3])
+                s = ("if", s[1], a, b)
+                ch = ch or c1 or c2
+            elif k == "while":
+                a, c1 = strip(s[2])
+                s = ("while", s[1], a, s[3])
+                ch = ch or c1
+            elif k == "dowhile":
+                a, c1 = strip(s[1])
+                s = ("dowhile", a, s[2])
+                ch = ch or c1
+            elif k == "switch":
+                cs = []
+                for ks, b, ft in s[2]:
+                    b2, c1 = strip(b)
+                    ch = ch or c1
+                    cs.append((ks, b2, ft))
+                d = None
+                if s[3] is not None:
+                    d, c1 = strip(s[3])
+                    ch = ch or c1
+                s = ("switch", s[1], cs, d, s[4])
+            o.append(s)
+        return o, ch
+    for _ in range(50):
+        body, _ = mark_dead(body)
+        body, changed = strip(body)
+        if not changed:
+            break
+    body, _ = mark_dead(body)
+    return body
+
+
 def throwing_insns(e, out=None):
     """div/rem instructions anywhere inside an expression"""
     out = set() if out is None else out
@@ -1585,7 +1632,7 @@ def pattern_methods(rng):
     ms = []
 
     def add(pool, ret, params, body, subject, shape, locals_=None):
-        body, _ = mark_dead(body)
+        body = drop_dead(body)
         m = Method("m%d" % len(ms), ret, params, locals_ if locals_ is not None else _locals_for(body), body, pool=pool, subject=subject, shape=shape)
         ms.append(compile_method(m))
     P2 = [("p0", "I"), ("p1", "I")]
@@ -1631,6 +1678,8 @@ def pattern_methods(rng):
             "multi-label": ([([keys[0], keys[2]], a1, False), ([keys[1]], [post], False)], [pre]),
             "empty-case": ([([keys[0]], a1, False), ([keys[1]], brk, False)], [pre]),
             "empty-cases-empty-default": ([([keys[0]], a1, False), ([keys[1], keys[2]], brk, False)], []),
+            "two-empty-cases": ([([keys[0]], a1, False), ([keys[1]], brk, False), ([keys[2]], brk, False)], [pre]),
+            "two-empty-cases-no-default": ([([keys[0]], a1, False), ([keys[1]], brk, False), ([keys[2]], brk, False)], None),
             "default-returns": ([([keys[0]], a1, False), ([keys[1]], [post], False)], [("return", ("var", "p1"))]),
             "if-in-case": ([([keys[0]], [("if", ("cmp", "lt", "I", x0, ("var", "p1"), False), a1, [post])], False), ([keys[1]], [post], False)], [pre]),
             "if-return-falls-into-next-case": ([([keys[0]], [("if", ("cmp", "lt", "I", x0, ("var", "p1"), False), r1, [])], True), ([keys[1]], r2, False)], [pre]),
@@ -1678,13 +1727,24 @@ def pattern_methods(rng):
                            ("return", ("bin", "sub", "I", ("var", "x1"), x0, "3reg"))],
     }
     kk = ("assign", "k0", _c(0))
-    du = ("assign", "x1", ("bin", "mul", "I", x0, ("var", "k0"), "3reg"))
+    du = ("assign", "x1", ("bin", "rem", "I", x0, ("var", "k0"), "3reg"))
+    pd["def-in-both-branches-only-dead-use-after"] = [("if", c1, [T1], [T2]), ("assign", "x0", ("bin", "rem", "I", ("var", "x1"), 3, "lit8")), ("return", ("var", "p0"))]
+    cst = ("assign", "x1", _c(-200))
+    pd["const-local-used-twice"] = [cst, ("return", ("bin", "or", "I", ("bin", "and", "I", ("var", "p0"), ("var", "x1"), "3reg"), ("var", "x1"), "3reg"))]
+    pd["const-local-used-three-times"] = [cst, ("return", ("bin", "or", "I", ("bin", "and", "I", ("un", "not-int", ("var", "x1")), ("bin", "mul", "I", ("var", "p0"), ("var", "x1"), "3reg"), "3reg"),
+                                                            ("var", "x1"), "3reg"))]
+    pd["const-local-used-in-both-branches"] = [cst, ("if", c1, [("return", ("bin", "add", "I", ("var", "x1"), ("var", "p0"), "3reg"))], []),
+                                               ("return", ("bin", "xor", "I", ("var", "x1"), ("var", "p1"), "3reg"))]
     pd["counters-in-sibling-branches-only-dead-use-after"] = [("assign", "x0", _c(5)), ("if", c1, [kk, ("while", lc, [_acc(), inc], "top")], [kk, ("while", lc, [_acc(_c(2)), inc], "top")]),
                                                                  du, ("return", x0)]
     alias = {"def-only-in-do-while-body-use-after": "def-only-in-do-while-body", "def-only-in-do-while-body-use-after-and-in-body": "def-only-in-do-while-body",
              "def-in-both-branches-only-dead-use-after": "dead-stmt-uses-local", "counters-in-sibling-branches-only-dead-use-after": "dead-stmt-uses-local"}
     for name, body in pd.items():
-        if name == "div-in-unused-nested-expression":
+        if name.startswith("const-local-"):
+            add("PD", "I", P2, body, "decl:const-local-multiple-uses", name)
+            lb = eval(repr(body).replace("'I'", "'J'").replace("'const/16'", "'const-wide/16'").replace("'not-int'", "'not-long'"))
+            add("PD", "J", [("p0", "J"), ("p1", "J")], lb, "decl:const-local-multiple-uses", name + "-long", locals_=[("x1", "J")])
+        elif name == "div-in-unused-nested-expression":
             add("PD", "I", P2, body, "dead:div-int", name)
         elif name in ("div-before-branch-used-in-one-branch", "div-before-loop-used-after", "two-divs-order"):
             add("PD", "I", P2, body, "throw:div-or-rem", name)
@@ -1701,10 +1761,13 @@ def pattern_methods(rng):
             "narrow-def-then-increment-in-loop": [N, k0, ("while", lc, [("assign", "x1", ("bin", "add", "I", ("var", "x1"), 127, "lit8")), inc], "top"), rx1],
             "narrow-in-one-branch-wide-in-other": [("if", c1, [N], [W_]), rx1],
             "narrow-def-used-in-arith": [N, ("return", ("bin", "mul", "I", ("var", "x1"), ("var", "p1"), "3reg"))],
+            "unary-of-narrow-neg": [("assign", "x1", ("un", "neg-int", ("un", cast, ("var", "p0")))), ("return", ("bin", "add", "I", ("var", "x1"), ("var", "p1"), "3reg"))],
+            "unary-of-narrow-not": [("assign", "x1", ("un", "not-int", ("un", cast, ("var", "p0")))), ("return", ("bin", "add", "I", ("var", "x1"), ("var", "p1"), "3reg"))],
         }
         mixed = ("wide-def-then-narrow-def-in-branch", "narrow-def-then-wide-def-in-branch", "narrow-in-one-branch-wide-in-other")
         for name, body in tp.items():
-            add("PD", "I", P2, body, "type:%s:%s" % (cast, "mixed-defs" if name in mixed else name), name)
+            sub = "mixed-defs" if name in mixed else "unary-of-narrow" if name.startswith("unary-of-narrow") else name
+            add("PD", "I", P2, body, "type:%s:%s" % (cast, sub), name)
     return ms
 
 
@@ -1755,7 +1818,7 @@ def switch_props(s):
         if len(ks) > 1:
             p.add("multi-label")
         if not body:
-            p.add("empty-case")
+            p.add("two-empty-cases" if "empty-case" in p else "empty-case")
         if body and not block_falls(body):
             nret += 1
             p.add("case-returns")
@@ -1784,6 +1847,7 @@ VARIANT_PROPS = {
     "fallthrough": {"fallthrough"}, "fallthrough-into-return": {"fallthrough-into-return"}, "multi-label": {"multi-label"},
     "empty-case": {"empty-case"}, "empty-cases-empty-default": {"empty-case", "multi-label", "empty-default"}, "default-returns": {"default-returns"},
     "if-in-case": {"if-in-case"}, "if-return-falls-into-next-case": {"if-return-falls-into-next-case"},
+    "two-empty-cases": {"two-empty-cases"}, "two-empty-cases-no-default": {"two-empty-cases", "no-default"},
 }
 NARROW = ("int-to-byte", "int-to-char", "int-to-short")
 
@@ -1804,6 +1868,10 @@ def structural_features(m):
                     f.add("throw:div-or-rem")
                 if k == "dead" and any(not n.startswith("p") for n in expr_uses(e)):
                     f.add("decl:dead-stmt-uses-local")
+                if k == "assign" and e[0] == "const":
+                    f.add("decl:const-local-multiple-uses")
+                if e[0] == "un" and e[1] in ("neg-int", "not-int") and e[2][0] == "un" and e[2][1] in NARROW:
+                    f.add("type:%s:unary-of-narrow" % e[2][1])
                 kind = "narrow:" + e[1] if e[0] == "un" and e[1] in NARROW else "wide"
                 defs.setdefault(s[1], set()).add(kind)
                 da.add(s[1])
@@ -1897,6 +1965,16 @@ def neutralise_struct(m, bad):
             if s[0] in ("assign", "dead") and s[2][0] == "un" and s[2][1] in NARROW and ("type:%s:mixed-defs" % s[2][1]) in bad:
                 done.add("type:%s:mixed-defs" % s[2][1])
                 out.append((s[0], s[1], s[2][2]))
+            elif (s[0] in ("assign", "dead") and s[2][0] == "un" and s[2][1] in ("neg-int", "not-int") and s[2][2][0] == "un" and s[2][2][1] in NARROW
+                  and ("type:%s:unary-of-narrow" % s[2][2][1]) in bad):
+                done.add("type:%s:unary-of-narrow" % s[2][2][1])
+                out.append((s[0], s[1], ("un", s[2][1], s[2][2][2])))
+            elif s[0] == "assign" and s[2][0] == "const" and "decl:const-local-multiple-uses" in bad and not s[1].startswith("k"):
+                done.add("decl:const-local-multiple-uses")
+                T = s[2][1]
+                pv = [n for n, t in m.params if t == T]
+                base = ("var", pv[0]) if pv else ("un", "int-to-long" if T == "J" else "long-to-int", ("var", m.params[0][0]))
+                out.append(("assign", s[1], ("bin", "or", T, ("bin", "and", T, base, mkconst(T, 0), "3reg"), s[2], "3reg")))
             elif s[0] in ("assign", "dead", "return"):
                 out.append(s)
             elif s[0] == "if":
@@ -1986,7 +2064,7 @@ def neutralise_struct(m, bad):
                 o.append(s)
             return o
         body = drop(body)
-    if any(b.startswith("type:") for b in bad):
+    if any(b.startswith("type:") or b == "decl:const-local-multiple-uses" for b in bad):
         body = strip_narrow(body)
     if any(b.split(":")[0] in ("nest", "seq", "switch", "ret-in") for b in bad):
         body = walk(body, [])
@@ -2036,7 +2114,7 @@ def neutralise_struct(m, bad):
     body = [("assign", n, mkconst(t, 0)) for n, t in m.locals if not n.startswith("k")] + body
     if block_falls(body):
         body = body + [("return", mkconst(m.ret, 0))]
-    body, _ = mark_dead(body)
+    body = drop_dead(body)
     used = assigned_names(body)
     n = m.clone(body=body)
     n.locals = [(a, t) for a, t in m.locals if a in used]
